@@ -31,6 +31,23 @@ Enumerated space (every element is one real run of the html target of the workin
   G  population   1..33 types in one namespace, 1..17 versions of one type, 1..17 nested namespaces (all referenced from
                   another page), chains of nested composites to depth 10.
 
+  H  deprecated   a @deprecated composite (structure, union, empty, delimited with primitive arrays, a type holding
+                  deprecated types two levels deep, fixed port-id, deprecated version next to its successors) at every
+                  position a composite can occupy - scalar field, fixed / variable array element, union alternative,
+                  service request / response field - with the (necessarily deprecated) referrer in the same namespace,
+                  nested below / above the target, in another branch at depth 3, in another root, plus users of the
+                  referrers one level up; deprecated services (fixed port-id, union sections, empty sections) and a
+                  deprecated chain of depth 5.  Core: 7 targets in the same namespace and struct / holder at all 5
+                  placements with all six kinds per graph; the other (target, placement) graphs and the 210
+                  single-reference graphs are the seed slice.  Doc strings at 4 slots of a deprecated graph are in B.
+  I  page naming  the options that decide what pages are called: namespace file stem (not given, index, plain, with
+                  underscore / upper case / digit, dotted index.v2 / index.en / a.b.c) x output extension (not given,
+                  .html, .htm, .xhtml, .HTML, .v2.html), over trees with namespaces to depth 3, references to the same /
+                  another branch / another root (one output directory and separate ones).  Core: every stem alone,
+                  every extension alone, 6 combinations through the API, 4 through the nnvg command line, 5 with
+                  separate output directories; the product stem x extension x 6 shapes is the seed slice (1/32).
+                  The link oracle lists the output directory: a link is followed to whatever file the run produced.
+
 Oracles (vf.c20_html, written over html.parser events; no nunavut code involved):
   1. strict well-formedness of every generated page (void elements known, every other start tag closed in order, no
      stray end tag, cleanly quoted attributes);
@@ -40,6 +57,8 @@ Oracles (vf.c20_html, written over html.parser events; no nunavut code involved)
      change any other part of the page;
   3. every relative href, resolved against the page's own path, names a generated file that contains the referenced id
      (a linked id that occurs more than once in its page is only counted: the statement does not demand unique ids).
+     A reference to a directory means its index.html; in runs configured with a stem / extension (layer I) it means
+     the one namespace page the run produced in that directory (counted when that is not index.html).
 """
 from __future__ import annotations
 
@@ -52,7 +71,7 @@ import re
 import shutil
 import typing
 
-from vf.c20_html import Page, compare, href_class, href_form, parse_page, resolve, same_events
+from vf.c20_html import Page, compare, href_class, href_form, is_type_page, namespace_pages, parse_page, resolve, same_events
 from vf.core import Bag, Ctx, HarnessError
 
 # ---------------------------------------------------------------------------------------------- alphabet
@@ -347,6 +366,28 @@ def _b_graphs() -> typing.List[Graph]:
                 "r/Old.1.0.dsdl": H(d.get("dep")) + "@deprecated\nuint8 a\n@sealed\n",
                 "r/100.P.1.0.dsdl": H(d.get("port")) + A("uint8 a", d.get("port_field")) + "@sealed\n",
                 "r/User.1.0.dsdl": "r.P.1.0 p\n@sealed\n",
+            },
+        )
+    )
+    gs.append(
+        Graph(
+            "deprecated_positions",
+            ("r",),
+            "same",
+            {
+                "old": Slot("type_header", "r.Old", None, None),
+                "holder": Slot("type_header", "r.Holder", None, None),
+                "arr": Slot("field", "r.Holder", None, "items"),
+                "alt": Slot("field", "r.OldU", None, "b"),
+            },
+            lambda d: {
+                "r/Old.1.0.dsdl": H(d.get("old")) + "@deprecated\nuint8 a\n@sealed\n",
+                "r/Holder.1.0.dsdl": H(d.get("holder"))
+                + "@deprecated\n"
+                + A("r.Old.1.0[2] items", d.get("arr"))
+                + "r.Old.1.0[<=2] more\nr.Old.1.0 one\n@sealed\n",
+                "r/OldU.1.0.dsdl": "@deprecated\n@union\nuint8 a\n" + A("r.Holder.1.0[<=2] b", d.get("alt")) + "@sealed\n",
+                "r/OldS.1.0.dsdl": "@deprecated\nr.OldU.1.0 q\n@sealed\n---\nr.Old.1.0[2] r\n@sealed\n",
             },
         )
     )
@@ -688,6 +729,187 @@ def population_cases() -> typing.List[dict]:
     return out
 
 
+# -------------------------------------------------------------------------------- deprecated types (layer H)
+# A deprecated composite at every position a composite can occupy.  PyDSDL only lets deprecated types depend on
+# deprecated types, so every referrer is deprecated too (the non-deprecated twins are layers B and C).
+_DEP = "@deprecated\n"
+DEP_TARGETS = ("struct", "union", "empty", "delimited", "holder", "port_id", "versions")
+DEP_PLACEMENTS = (
+    ("same_namespace", ("r",), ("r",)),
+    ("referrer_nested", ("r", "x"), ("r",)),
+    ("target_nested", ("r",), ("r", "y")),
+    ("other_branch_depth3", ("r", "x", "z"), ("r", "y", "w")),
+    ("cross_root", ("r",), ("o",)),
+)
+
+
+def _dep_target_files(kind: str, path: typing.Sequence[str]) -> typing.Tuple[typing.Dict[str, str], str]:
+    """Files of the deprecated target `G` below `path` and the versioned name referrers use."""
+    d, q = "/".join(path), ".".join(path)
+    if kind == "struct":
+        return {f"{d}/G.1.0.dsdl": _DEP + "uint8 g\n@sealed\n"}, f"{q}.G.1.0"
+    if kind == "union":
+        return {f"{d}/G.1.0.dsdl": _DEP + "@union\nuint8 a\nuint16 b\n@sealed\n"}, f"{q}.G.1.0"
+    if kind == "empty":
+        return {f"{d}/G.1.0.dsdl": _DEP + "@sealed\n"}, f"{q}.G.1.0"
+    if kind == "delimited":
+        return {f"{d}/G.1.0.dsdl": _DEP + "uint8 g\nuint8[<=3] prim\nbool[4] bits\n@extent 64\n"}, f"{q}.G.1.0"
+    if kind == "holder":  # a deprecated type holding deprecated types (two levels below the referrer)
+        return (
+            {
+                f"{d}/Leaf.1.0.dsdl": _DEP + "uint8 x\n@sealed\n",
+                f"{d}/Mid.1.0.dsdl": _DEP + f"{q}.Leaf.1.0[<=2] leaves\n@sealed\n",
+                f"{d}/G.1.0.dsdl": _DEP
+                + f"{q}.Leaf.1.0 one\n{q}.Leaf.1.0[2] two\n{q}.Leaf.1.0[<=2] more\n{q}.Mid.1.0 mid\n{q}.Mid.1.0[2] mids\n"
+                + "uint8[<=3] prim\n@sealed\n",
+            },
+            f"{q}.G.1.0",
+        )
+    if kind == "port_id":
+        return {f"{d}/7000.G.1.0.dsdl": _DEP + "uint8 g\n@sealed\n"}, f"{q}.G.1.0"
+    if kind == "versions":  # the deprecated version next to its successors
+        return (
+            {
+                f"{d}/G.1.0.dsdl": _DEP + "uint8 g\n@sealed\n",
+                f"{d}/G.1.1.dsdl": "uint8 g\n@sealed\n",
+                f"{d}/G.2.0.dsdl": "uint8 g\nuint8 h\n@sealed\n",
+                f"{d}/Now.1.0.dsdl": f"{q}.G.1.1 a\n{q}.G.2.0[2] b\n@sealed\n",
+            },
+            f"{q}.G.1.0",
+        )
+    raise HarnessError(kind)
+
+
+def deprecated_case(target: str, placement: str, kinds: typing.Sequence[str]) -> dict:
+    _, ref_path, tgt_path = [p for p in DEP_PLACEMENTS if p[0] == placement][0]
+    files, tgt = _dep_target_files(target, tgt_path)
+    for kind in kinds:
+        i = REF_KINDS.index(kind)
+        files["/".join(ref_path) + f"/R{i}.1.0.dsdl"] = _DEP + _ref_body(tgt, kind)
+    if len(kinds) > 1:
+        # one level further up: deprecated users of the (deprecated) referrers, as scalar and as array element
+        q = ".".join(ref_path)
+        files["/".join(ref_path) + "/Top.1.0.dsdl"] = _DEP + f"{q}.R0.1.0 a\n{q}.R1.1.0[2] b\n{q}.R2.1.0[<=2] c\n{q}.R3.1.0[2] d\n@sealed\n"
+    roots = [ref_path[0]] + ([tgt_path[0]] if tgt_path[0] != ref_path[0] else [])
+    what = "all" if len(kinds) > 1 else kinds[0]
+    return {"label": f"deprecated:{target}:{placement}:{what}", "files": files, "roots": roots, "mode": "same", "must_accept": True}
+
+
+DEP_CORE_EVERYWHERE = ("struct", "holder")  # quick core: these at every placement, the other targets in the same namespace
+
+
+def _dep_set_core(target: str, placement: str) -> bool:
+    return placement == DEP_PLACEMENTS[0][0] or target in DEP_CORE_EVERYWHERE
+
+
+def deprecated_set_cases(core: bool = True) -> typing.List[dict]:
+    """Graphs with all six reference kinds at once; core=False: the (target, placement) pairs left to the seed slice."""
+    out = [deprecated_case(t, p[0], REF_KINDS) for t in DEP_TARGETS for p in DEP_PLACEMENTS if _dep_set_core(t, p[0]) == core]
+    if not core:
+        return out
+    # deprecated services: fixed port-id, union sections, deprecated composites in both sections, a chain of depth 4
+    out.append(
+        {
+            "label": "deprecated:services",
+            "files": {
+                "r/Old.1.0.dsdl": _DEP + "uint8 a\n@sealed\n",
+                "r/s/400.Call.1.0.dsdl": _DEP + "r.Old.1.0 q\nr.Old.1.0[2] qa\n@sealed\n---\nr.Old.1.0[<=2] rv\nr.Old.1.0 r\n@sealed\n",
+                "r/s/UCall.1.0.dsdl": _DEP + "@union\nuint8 a\nr.Old.1.0[2] b\n@sealed\n---\n@union\nr.Old.1.0 a\nr.Old.1.0[<=2] b\n@extent 512\n",
+                "r/s/Bare.1.0.dsdl": _DEP + "@sealed\n---\n@sealed\n",
+            },
+            "roots": ["r"],
+            "mode": "same",
+            "must_accept": True,
+        }
+    )
+    files = {"r/c/D0.1.0.dsdl": _DEP + "uint8 a\n@sealed\n"}
+    for i in range(1, 5):
+        shape = ("[2]", "[<=2]", "", "[2]")[i - 1]
+        files[f"r/c/D{i}.1.0.dsdl"] = _DEP + f"r.c.D{i - 1}.1.0{shape} inner\nr.c.D{i - 1}.1.0 plain\n@sealed\n"
+    out.append({"label": "deprecated:chain_depth5", "files": files, "roots": ["r"], "mode": "same", "must_accept": True})
+    return out
+
+
+def deprecated_single_cases() -> typing.List[dict]:
+    return [deprecated_case(t, p[0], [k]) for t in DEP_TARGETS for p in DEP_PLACEMENTS for k in REF_KINDS]
+
+
+# -------------------------------------------------------------------------------- page naming options (layer I)
+# The two generator options that decide how pages are called: the namespace file stem (--namespace-output-stem) and the
+# output extension (--output-extension).  None = option not given.  Every combination is run over graphs with nested
+# namespaces and cross-namespace / cross-root references of all six kinds; the link oracle lists the output directory
+# and follows every link to whatever file this run produced.
+OPT_STEMS = (None, "index", "docs", "Index_Page", "api_docs9", "index.v2", "index.en", "a.b.c")
+OPT_EXTENSIONS = (None, ".html", ".htm", ".xhtml", ".HTML", ".v2.html")
+OPT_DIAGONAL = (("docs", ".htm"), ("index.v2", ".v2.html"), ("index.en", ".xhtml"), ("a.b.c", ".HTML"), ("Index_Page", ".v2.html"), ("api_docs9", ".htm"))
+OPT_SEPARATE = ((None, None), ("docs", None), ("index.v2", None), (None, ".htm"), ("index.en", ".v2.html"))
+OPT_CLI = (("docs", None), ("index.v2", None), (None, "htm"), ("index.en", ".xhtml"))  # nnvg adds the '.' to 'htm'
+OPT_MERGED_KINDS = ("field", "var_array", "service_request_field")
+I_SLICE = 32
+OPT_SHAPES = (
+    (1, 1, "same_branch", "same"),
+    (3, 1, "same_branch", "same"),
+    (1, 3, "same_branch", "same"),
+    (2, 3, "other_branch", "same"),
+    (2, 2, "cross_root", "same"),
+    (3, 2, "cross_root", "separate"),
+)
+
+
+def _opt_label(stem: typing.Optional[str], ext: typing.Optional[str], via: str) -> str:
+    return f"stem={'default' if stem is None else stem}:extension={'default' if ext is None else ext}:{via}"
+
+
+def _stem_class(stem: typing.Optional[str]) -> str:
+    return "default" if stem is None else ("dotted" if "." in stem else "plain")
+
+
+def option_merged_case(stem: typing.Optional[str], ext: typing.Optional[str], via: str) -> dict:
+    """All one-output-directory shapes of OPT_SHAPES in one tree (roots ra and rb), all six reference kinds each."""
+    files: typing.Dict[str, str] = {}
+    for j, shape in enumerate(s for s in OPT_SHAPES if s[3] == "same"):
+        for kind in OPT_MERGED_KINDS:
+            for rel, text in link_case(shape[0], shape[1], shape[2], kind, "same")["files"].items():
+                name = rel.rsplit("/", 1)[-1]
+                files[rel if name.startswith("G.") else f"{rel.rsplit('/', 1)[0]}/R{'abcdefgh'[j]}{REF_KINDS.index(kind)}.1.0.dsdl"] = text
+    return {
+        "label": "options:merged:" + _opt_label(stem, ext, via),
+        "files": files,
+        "roots": ["ra", "rb"],
+        "mode": "same",
+        "options": {"stem": stem, "extension": ext, "via": via},
+        "must_accept": True,
+    }
+
+
+def option_shape_case(stem: typing.Optional[str], ext: typing.Optional[str], shape: typing.Tuple[int, int, str, str]) -> dict:
+    c = link_set_case(*shape)
+    return dict(
+        c,
+        label="options:" + c["label"] + ":" + _opt_label(stem, ext, "api"),
+        options={"stem": stem, "extension": ext, "via": "api"},
+        must_accept=True,
+    )
+
+
+def option_core_combos() -> typing.List[typing.Tuple[typing.Optional[str], typing.Optional[str]]]:
+    """Every stem alone, every extension alone, and the diagonal of combinations."""
+    return [(s, None) for s in OPT_STEMS] + [(None, e) for e in OPT_EXTENSIONS if e is not None] + list(OPT_DIAGONAL)
+
+
+def option_core_cases() -> typing.List[dict]:
+    sep = [s for s in OPT_SHAPES if s[3] == "separate"]
+    out = [option_merged_case(stem, ext, "api") for stem, ext in option_core_combos()]
+    out += [option_shape_case(stem, ext, s) for stem, ext in OPT_SEPARATE for s in sep]
+    out += [option_merged_case(stem, ext, "cli") for stem, ext in OPT_CLI]
+    return out
+
+
+def option_slice_cases() -> typing.List[dict]:
+    """The full product stem x extension x shape, all six reference kinds per graph."""
+    return [option_shape_case(stem, ext, s) for stem in OPT_STEMS for ext in OPT_EXTENSIONS for s in OPT_SHAPES]
+
+
 # -------------------------------------------------------------------------------- constants (layer E)
 CONSTANTS = [
     ("uint8", "'<'"),
@@ -738,6 +960,10 @@ class Tree(typing.NamedTuple):
     dirs: typing.Dict[str, typing.Set[str]]
     docs: typing.Dict[typing.Tuple[str, typing.Optional[str], typing.Optional[str]], str]  # pydsdl's view of all docs
     rejected: typing.Optional[str]
+    # runs configured with a namespace file stem / extension: directory -> the namespace page found in the output
+    index: typing.Optional[typing.Dict[str, str]] = None
+    facts: typing.Optional[typing.Dict[str, int]] = None  # what PyDSDL sees in the input (vacuity guards)
+    naming: typing.Optional[str] = None  # class of the page naming options of the run (signature feature)
 
 
 _counter = [0]
@@ -773,8 +999,65 @@ def _collect_docs(types: typing.Sequence[typing.Any]) -> dict:
     return out
 
 
-def generate_tree(files: typing.Mapping[str, str], roots: typing.Sequence[str], mode: str, scratch: pathlib.Path) -> Tree:
-    """Writes the DSDL files, runs the real html generator for every root, parses every generated page."""
+def _collect_facts(types: typing.Sequence[typing.Any], facts: typing.Dict[str, int]) -> None:
+    """Counts (from PyDSDL's model alone) the uses of deprecated composites, per position."""
+    import pydsdl
+
+    def bump(k: str) -> None:
+        facts[k] = facts.get(k, 0) + 1
+
+    for t in types:
+        if isinstance(t, pydsdl.ServiceType):
+            sections = [("service_request", t.request_type), ("service_response", t.response_type)]
+        else:
+            sections = [("union" if isinstance(t.inner_type, pydsdl.UnionType) else "structure", t)]
+        if t.deprecated:
+            bump("deprecated_types")
+            if isinstance(t, pydsdl.ServiceType):
+                bump("deprecated_services")
+            if t.has_fixed_port_id:
+                bump("deprecated_types_with_fixed_port_id")
+        for where, c in sections:
+            for a in c.fields_except_padding:
+                dt = a.data_type
+                shape = "scalar"
+                if isinstance(dt, pydsdl.FixedLengthArrayType):
+                    shape, dt = "fixed_array", dt.element_type
+                elif isinstance(dt, pydsdl.VariableLengthArrayType):
+                    shape, dt = "variable_array", dt.element_type
+                if isinstance(dt, pydsdl.CompositeType) and dt.deprecated:
+                    bump("deprecated_use")
+                    bump(f"deprecated_use:{shape}")
+                    bump(f"deprecated_use_in:{where}")
+                    if any(
+                        isinstance(getattr(f.data_type, "element_type", f.data_type), pydsdl.CompositeType)
+                        for f in dt.fields_except_padding
+                    ):
+                        bump("deprecated_use_of_a_type_holding_deprecated_types")
+
+
+def _cli_argv(src: pathlib.Path, root: str, lookup: typing.Sequence[pathlib.Path], out: pathlib.Path, options: typing.Mapping[str, typing.Any]) -> typing.List[str]:
+    argv = ["--target-language", "html", "--experimental-languages", "--outdir", str(out)]
+    if options.get("stem") is not None:
+        argv += ["--namespace-output-stem", options["stem"]]
+    if options.get("extension") is not None:
+        argv += ["--output-extension", options["extension"]]
+    for d in lookup:
+        argv += ["--lookup-dir", str(d)]
+    return argv + [str(src / root)]
+
+
+def generate_tree(
+    files: typing.Mapping[str, str],
+    roots: typing.Sequence[str],
+    mode: str,
+    scratch: pathlib.Path,
+    options: typing.Optional[typing.Mapping[str, typing.Any]] = None,
+) -> Tree:
+    """
+    Writes the DSDL files, runs the real html generator for every root, parses every generated page.
+    options (layer I): {'stem': namespace file stem or None, 'extension': output extension or None, 'via': 'api'|'cli'}.
+    """
     import pydsdl
 
     import vf.gen as gen
@@ -787,6 +1070,7 @@ def generate_tree(files: typing.Mapping[str, str], roots: typing.Sequence[str], 
         raw: typing.Dict[str, typing.Dict[str, str]] = {}
         dirs: typing.Dict[str, typing.Set[str]] = {}
         docs: dict = {}
+        facts: typing.Dict[str, int] = {}
         for root in roots:
             key = "out" if mode == "same" else "out_" + root
             out = work / key
@@ -797,7 +1081,18 @@ def generate_tree(files: typing.Mapping[str, str], roots: typing.Sequence[str], 
             except pydsdl.FrontendError as e:  # the front end decides what is in scope
                 return Tree({}, {}, {}, {}, f"{type(e).__name__}: {e}")
             docs.update(_collect_docs([t for t in types if t.root_namespace == root]))
-            _, paths = gen.generate("html", src / root, out, lookup=lookup, types=types)
+            _collect_facts([t for t in types if t.root_namespace == root], facts)
+            if options is None:
+                _, paths = gen.generate("html", src / root, out, lookup=lookup, types=types)
+            elif options.get("via") == "cli":
+                r = gen.cli(_cli_argv(src, root, lookup, out, options))
+                if r.rc != 0 or r.exc:
+                    raise HarnessError(f"nnvg failed for options {dict(options)}: rc={r.rc} {r.exc} {r.err[-300:]}")
+                paths = sorted(p for p in out.rglob("*") if p.is_file())
+            else:
+                _, paths = gen.generate(
+                    "html", src / root, out, lookup=lookup, types=types, stem=options.get("stem"), extension=options.get("extension")
+                )
             for p in paths:
                 p = pathlib.Path(p)
                 rel = p.relative_to(out).as_posix()
@@ -812,13 +1107,18 @@ def generate_tree(files: typing.Mapping[str, str], roots: typing.Sequence[str], 
                 parts = rel.split("/")[:-1]
                 for i in range(1, len(parts) + 1):
                     ds.add("/".join(parts[:i]))
-        return Tree(pages, raw, dirs, docs, None)
+        index = None
+        if options is not None:  # directory -> the namespace page this run actually produced there (union of all roots)
+            index = namespace_pages(rel for k in raw for rel in raw[k])
+            naming = f"stem_{_stem_class(options.get('stem'))}/extension_{'default' if options.get('extension') is None else 'given'}"
+            return Tree(pages, raw, dirs, docs, None, index, facts, naming)
+        return Tree(pages, raw, dirs, docs, None, index, facts)
     finally:
         shutil.rmtree(work, ignore_errors=True)
 
 
 def page_kind(rel: str) -> str:
-    return "namespace_page" if rel.rsplit("/", 1)[-1] == "index.html" else "type_page"
+    return "type_page" if is_type_page(rel) else "namespace_page"
 
 
 def sink_of(rel: str, ctx: typing.Tuple[str, str]) -> str:
@@ -875,12 +1175,25 @@ def check_tree_standalone(tree: Tree, res: Result, due_to_text: typing.Optional[
                     continue
                 res.count("links_checked")
                 res.count("links_checked_" + href_form(href))
-                target, frag = resolve(rel, href, tree.dirs.get(key, set()))
+                target, frag = resolve(rel, href, tree.dirs.get(key, set()), tree.index)
+                if tree.index is not None and target is not None and "#" in href and href_form(href) != "fragment_only":
+                    if not href.partition("#")[0].endswith("/"):
+                        res.count("links_naming_a_page_file")
+                    elif not target.endswith("/index.html"):
+                        # the statement asks for "a page the generator produces": a directory reference is followed to the
+                        # namespace page the run produced in that directory, whatever it is called (counted, with example)
+                        res.count("directory_links_followed_to_a_namespace_page_not_named_index_html")
+                        res.notes.setdefault(
+                            "directory_link_to_non_index_namespace_page",
+                            f"{rel}: href {href!r} names a directory whose namespace page is {target!r}",
+                        )
                 root_of_page = rel.split("/", 1)[0]
                 where = "nested_namespace_page" if depth > 1 else "root_namespace_page"
                 base_sig = {"kind": "broken_link", "form": href_form(href), "from": where}
                 section = bool(re.search(r"_(Request|Response)_\d+_\d+$", frag))
                 base_sig["target"] = "service_section" if section else "type_or_namespace"
+                if tree.naming is not None:
+                    base_sig["page_naming"] = tree.naming
                 if target is None:
                     res.add(dict(base_sig, reason="leaves_output_root"), f"{rel}: href {href!r} leaves the output directory")
                     continue
@@ -1057,7 +1370,9 @@ def eval_case(case: dict, scratch: pathlib.Path, base_cache: typing.Optional[dic
       - pair=[base_comp, comp], word, doc, position, slot_key: one run, h/<comp>/ is judged against h/<base_comp>/.
     """
     res = Result()
-    tree = generate_tree(case["files"], case["roots"], case["mode"], scratch)
+    tree = generate_tree(case["files"], case["roots"], case["mode"], scratch, case.get("options"))
+    for k, v in (tree.facts or {}).items():
+        res.count("input:" + k, v)
     if tree.rejected is not None:
         if case.get("must_accept"):
             raise HarnessError(f"PyDSDL rejects a namespace the space relies on ({case['label']}): {tree.rejected[:300]}")
@@ -1076,16 +1391,26 @@ def eval_case(case: dict, scratch: pathlib.Path, base_cache: typing.Optional[dic
     base_files = case.get("base_files")
     if base_files is None:
         check_tree_standalone(tree, res)
+        opts = case.get("options")
+        if opts is not None:
+            n = res.stats.get("links_checked_page_and_fragment", 0)
+            res.count("links_checked_with_stem:" + _stem_class(opts.get("stem")), n)
+            res.count("links_checked_with_extension:" + ("default" if opts.get("extension") is None else "given"), n)
+            res.count("links_checked_with_options_via:" + str(opts.get("via")), n)
+            if any(not v.endswith("/index.html") for v in (tree.index or {}).values()):
+                res.count("option_runs_with_a_namespace_page_not_named_index_html")
+            if not tree.index:
+                raise HarnessError(f"no namespace page found in the output of {case['label']}")
         if any(sec == "request" for (_, sec, _) in tree.docs):
             res.count("links_checked_in_trees_with_services", res.stats.get("links_checked", 0))
         if not res.violations:
             res.outcomes.add("standalone_ok:links" if res.stats.get("links_resolved") else "standalone_ok:nolinks")
         return res
     _check_doc_seen(tree, case)
-    bkey = json.dumps([base_files, case["roots"], case["mode"]], sort_keys=True)
+    bkey = json.dumps([base_files, case["roots"], case["mode"], case.get("options")], sort_keys=True)
     base = base_cache.get(bkey) if base_cache is not None else None
     if base is None:
-        base = generate_tree(base_files, case["roots"], case["mode"], scratch)
+        base = generate_tree(base_files, case["roots"], case["mode"], scratch, case.get("options"))
         if base.rejected is not None:
             raise HarnessError(f"base namespace rejected by PyDSDL: {base.rejected}")
         if base_cache is not None:
@@ -1210,7 +1535,7 @@ def _work(job: dict) -> dict:
 
 
 def _replayable(case: dict) -> dict:
-    keep = ("label", "files", "base_files", "pair", "roots", "mode", "word", "doc", "position", "slot_key", "expect_attr_names", "must_accept")
+    keep = ("label", "files", "base_files", "pair", "roots", "mode", "word", "doc", "position", "slot_key", "expect_attr_names", "must_accept", "options")
     return {k: case[k] for k in keep if k in case}
 
 
@@ -1260,7 +1585,13 @@ def run(ctx: Ctx) -> int:
         if attr_count_core(int(c["label"].split(":")[2]), c["label"].split(":")[1]) or ctx.in_slice("F|" + c["label"])
     ]
     g_cases = population_cases()
-    plain = link_sets + single_links + name_cases() + const_cases() + d2_cases + g_cases
+    h_core = deprecated_set_cases()
+    h_all = deprecated_set_cases(False) + deprecated_single_cases()
+    h_cases = h_core + [c for c in h_all if ctx.in_slice("H|" + c["label"])]
+    i_core = option_core_cases()
+    i_all = option_slice_cases()
+    i_cases = i_core + [c for c in i_all if ctx.in_slice("I|" + c["label"], I_SLICE)]
+    plain = link_sets + single_links + name_cases() + const_cases() + d2_cases + g_cases + h_cases + i_cases
     for i in range(0, len(plain), 6):
         jobs.append({"type": "cases", "cases": plain[i : i + 6], "scratch": scratch})
     # layer F: the large counts first and one small with one large count per job (even load, deterministic)
@@ -1297,6 +1628,8 @@ def run(ctx: Ctx) -> int:
         layer_D2_service_name_cases=len(d2_cases),
         layer_F_attribute_count_cases=len(f_cases),
         layer_G_population_cases=len(g_cases),
+        layer_H_deprecated_cases=len(h_cases),
+        layer_I_page_naming_option_cases=len(i_cases),
         distinct_doc_strings=len(docs),
         sinks=sorted(sinks),
         not_demanded_observations={k: notes[k] for k in sorted(notes)},
@@ -1312,6 +1645,24 @@ def run(ctx: Ctx) -> int:
         "sinks_reached",
         "attribute_count_sections",
         "links_checked_in_trees_with_services",
+        # layer H: PyDSDL's own model says that deprecated composites were used at every position
+        "input:deprecated_use:scalar",
+        "input:deprecated_use:fixed_array",
+        "input:deprecated_use:variable_array",
+        "input:deprecated_use_in:structure",
+        "input:deprecated_use_in:union",
+        "input:deprecated_use_in:service_request",
+        "input:deprecated_use_in:service_response",
+        "input:deprecated_use_of_a_type_holding_deprecated_types",
+        "input:deprecated_services",
+        "input:deprecated_types_with_fixed_port_id",
+        # layer I: links were followed in runs with every class of stem / a non-default extension, API and CLI
+        "links_checked_with_stem:default",
+        "links_checked_with_stem:plain",
+        "links_checked_with_stem:dotted",
+        "links_checked_with_extension:given",
+        "links_checked_with_options_via:cli",
+        "option_runs_with_a_namespace_page_not_named_index_html",
     ):
         if not ctx.stats.get(need):
             raise HarnessError(f"vacuous: statistic {need} is zero")
@@ -1343,7 +1694,14 @@ def run(ctx: Ctx) -> int:
         f"fields+constants+padding; each with structure, union, service sections and nested / array-element expansions on "
         f"other pages; {'complete' if ctx.thorough else 'complete for the mixed composition up to ' + str(max(ATTR_COUNTS)) + ' and for the pure compositions up to 33 and 63..65, the rest seed slice 1/16'}); "
         f"G: {len(g_cases)} population graphs (types / versions / nested namespaces per namespace up to {max(POPULATION)}, "
-        f"composite nesting depth up to {max(DEPTHS)}) complete",
+        f"composite nesting depth up to {max(DEPTHS)}) complete; "
+        f"H: {len(h_cases)}/{len(h_core) + len(h_all)} graphs with deprecated composites ({len(DEP_TARGETS)} targets x "
+        f"{len(DEP_PLACEMENTS)} placements x 6 reference kinds; {len(h_core)} core graphs with all six kinds, services and "
+        f"a chain of depth 5 complete, the rest {'complete' if ctx.thorough else 'seed slice 1/16'}); "
+        f"I: {len(i_cases)}/{len(i_core) + len(i_all)} runs with page naming options ({len(OPT_STEMS)} stems x "
+        f"{len(OPT_EXTENSIONS)} extensions x {len(OPT_SHAPES)} shapes; {len(i_core)} core runs: every stem, every "
+        f"extension, {len(OPT_DIAGONAL)} combinations, {len(OPT_CLI)} through nnvg, {len(OPT_SEPARATE)} with separate output "
+        f"directories complete; the product {'complete' if ctx.thorough else f'seed slice 1/{I_SLICE}'})",
         "exhaustive": bool(ctx.thorough),
     }
     return ctx.finish(
@@ -1355,6 +1713,9 @@ def run(ctx: Ctx) -> int:
             "a URL that names a directory means that directory's index.html; with separate output directories a "
             "cross-root link is judged against the union of the output roots",
             "server-absolute hrefs (/reg/Namespace.html on type pages) and external URLs are counted, not judged",
+            "runs with a namespace file stem / extension option: a directory URL is followed to the single generated "
+            "file of that directory that is not a type page (<name>_<major>_<minor><ext>), whatever its name "
+            "(stat directory_links_followed_to_a_namespace_page_not_named_index_html); without options it means index.html",
             "ids are judged only as link targets (existence); a linked id that occurs twice in its page is counted in "
             "stats (links_to_an_id_that_occurs_more_than_once, not_demanded_observations), not reported: the statement "
             "does not demand unique ids",
